@@ -199,10 +199,8 @@ class Decisions:
     return False
 
 
-def quick_check(assumptions, extra, timeout_ms=200):
-  s = z3.Solver()
-  s.set('timeout', timeout_ms)
-  s.add(*assumptions)
-  s.add(extra)
-  r = s.check()
-  return r
+def quick_check(assumptions, extra):
+  # deterministic budget (z3 resource units), in a forked child with a wall-clock backstop: the set of
+  # explored paths -- and with it the set of generated obligations -- must not depend on machine load
+  from engine import smt
+  return smt.quick_sat(assumptions, extra)
